@@ -229,4 +229,96 @@ theorem respects_of_separate {ν : Type} [DecidableEq ν] (l : List (ν × α)) 
     simp only [decide_eq_true_eq] at h1
     exact (h kv' h2 kv hkv h1).symm
 
+/-! ### percent-encoding -/
+
+theorem unhex_hexDigit (n : Nat) (h : n < 16) : unhex (hexDigit n) = n := by
+  unfold unhex hexDigit
+  split <;> split <;> omega
+
+theorem hexDigit_ne_37 (n : Nat) (h : n < 16) : hexDigit n ≠ 37 := by
+  unfold hexDigit; split <;> omega
+
+theorem pctDecode_encode : ∀ (l : List Nat), (∀ b ∈ l, b < 256) → pctDecode (pctEncode l) = l := by
+  intro l
+  induction l with
+  | nil => intro _; rfl
+  | cons b rest ih =>
+    intro h
+    have hb := h b (by simp)
+    have hr := ih (fun x hx => h x (by simp [hx]))
+    simp only [pctEncode]
+    by_cases hs : safeByte b = true
+    · simp only [hs, if_true]
+      have hne : b ≠ 37 := by
+        intro e; subst e; simp [safeByte] at hs
+      cases hp : pctEncode rest with
+      | nil => rw [hp] at hr; simp [pctDecode, ← hr]
+      | cons x xs =>
+        rw [hp] at hr
+        cases xs with
+        | nil => simp [pctDecode, ← hr]
+        | cons y ys => unfold pctDecode; split <;> simp_all
+    · simp only [hs]
+      simp only [Bool.false_eq_true, if_false, pctDecode]
+      rw [unhex_hexDigit _ (by omega), unhex_hexDigit _ (by omega), hr]
+      congr 1
+      omega
+
+theorem pctEncode_injective (a b : List Nat) (ha : ∀ x ∈ a, x < 256) (hb : ∀ x ∈ b, x < 256)
+    (h : pctEncode a = pctEncode b) : a = b := by
+  rw [← pctDecode_encode a ha, ← pctDecode_encode b hb, h]
+
+/-- every byte of an encoded string is `%`, a hexadecimal digit or a safe byte -/
+theorem pctEncode_bytes : ∀ (l : List Nat), (∀ b ∈ l, b < 256) →
+    ∀ x ∈ pctEncode l, x = 37 ∨ (48 ≤ x ∧ x ≤ 57) ∨ (65 ≤ x ∧ x ≤ 70) ∨ safeByte x = true := by
+  intro l
+  induction l with
+  | nil => intro _ x hx; simp [pctEncode] at hx
+  | cons b rest ih =>
+    intro h x hx
+    have hb := h b (by simp)
+    have hr := ih (fun y hy => h y (by simp [hy]))
+    simp only [pctEncode] at hx
+    by_cases hs : safeByte b = true
+    · simp only [hs, if_true, List.mem_cons] at hx
+      rcases hx with rfl | hx
+      · exact Or.inr (Or.inr (Or.inr hs))
+      · exact hr x hx
+    · simp only [hs, Bool.false_eq_true, if_false, List.mem_cons] at hx
+      have hd : ∀ n, n < 16 → (48 ≤ hexDigit n ∧ hexDigit n ≤ 57) ∨ (65 ≤ hexDigit n ∧ hexDigit n ≤ 70) := by
+        intro n hn; unfold hexDigit; split <;> omega
+      rcases hx with rfl | rfl | rfl | hx
+      · exact Or.inl rfl
+      · rcases hd (b / 16) (by omega) with h1 | h1
+        · exact Or.inr (Or.inl h1)
+        · exact Or.inr (Or.inr (Or.inl h1))
+      · rcases hd (b % 16) (by omega) with h1 | h1
+        · exact Or.inr (Or.inl h1)
+        · exact Or.inr (Or.inr (Or.inl h1))
+      · exact hr x hx
+
+theorem nodup_keys_separate (l : List (κ × α)) (h : (l.map (·.1)).Nodup) :
+    ∀ a ∈ l, ∀ b ∈ l, a.1 = b.1 → a.2 = b.2 := by
+  induction l with
+  | nil => intro a ha; simp at ha
+  | cons x xs ih =>
+    simp only [List.map_cons, List.nodup_cons, List.mem_map, not_exists, not_and] at h
+    intro a ha b hb hab
+    rcases List.mem_cons.mp ha with rfl | ha' <;> rcases List.mem_cons.mp hb with rfl | hb'
+    · rfl
+    · exact absurd hab.symm (h.1 b hb')
+    · exact absurd hab (h.1 a ha')
+    · exact ih h.2 a ha' b hb' hab
+
+theorem nodup_map_of_injective {γ δ : Type} (f : γ → δ) (hf : Function.Injective f) :
+    ∀ (l : List γ), l.Nodup → (l.map f).Nodup := by
+  intro l
+  induction l with
+  | nil => intro _; simp
+  | cons x xs ih =>
+    intro h
+    simp only [List.nodup_cons] at h
+    simp only [List.map_cons, List.nodup_cons, List.mem_map, not_exists, not_and]
+    exact ⟨fun y hy e => h.1 (hf e ▸ hy), ih h.2⟩
+
 end Mxl.C19
